@@ -14,7 +14,7 @@ RULE = ("case = (arbiter class, nreqs 2..9, scheduler incl. seeded S2 variants a
         "linear extensions, seeded object-hash stream, 20..80 cycles of reqs/en with mid-run resets, "
         "input glitches and duplicate evaluations); non-trivial = at least one fault kind fired and at "
         "least 3 granting cycles with >=2 simultaneous requesters; distinct = distinct case digest")
-TIERS = {"quick": {"runs": 1600, "budget_s": 90}, "thorough": {"runs": 60000, "budget_s": 900}}
+TIERS = {"quick": {"runs": 3200, "budget_s": 90}, "thorough": {"runs": 400000, "budget_s": 900}}
 REAL = ["pymtl3.stdlib.basic_rtl.arbiters.RoundRobinArbiter(En)", "RegEnRst", "all five pass groups",
         "GenDAGPass", "PrepareSimPass/UnrollSimPass"]
 STUB = ["request/enable driver", "one-hot pointer reference model"]
